@@ -1,7 +1,7 @@
 (* One entry point for the extracted driver and for cases.v: (tag arg) -> result. *)
 From Coq Require Import List NArith.
 Import ListNotations.
-Require Import Wire W_C18 W_C17 W_C15 W_C14 W_C10 W_C06 W_C20 W_C11 W_Paths W_C13 W_C02 W_C12 W_C03 W_C19 W_C16 W_C05.
+Require Import Wire W_C18 W_C17 W_C15 W_C14 W_C10 W_C06 W_C20 W_C11 W_Paths W_C13 W_C02 W_C12 W_C03 W_C19 W_C16 W_C05 W_Names.
 Local Open Scope N_scope.
 
 Definition dispatch (v : val) : val :=
@@ -20,6 +20,7 @@ Definition dispatch (v : val) : val :=
   | VL [VN 1102; a] => run_tar_path a
   | VL [VN 2001; a] => run_validate_path a
   | VL [VN 1300; a] => run_c13_verify a
+  | VL [VN 1350; a] => run_names a
   | VL [VN 1301; a] => run_c13_alarm a
   | VL [VN 700; a] => run_c07_publish a
   | VL [VN 701; a] => run_c07_fail a
